@@ -68,6 +68,9 @@ def run(rep: core.Report):
     _r20f(rep)
     _r20g(rep)
     _r20h(rep)
+    from rules import shared_bcast
+
+    shared_bcast.run(rep, "R20j", [r for r in ["phonopy/qha/core.py", "phonopy/qha/eos.py", "phonopy/qha/electron.py"] if (core.REPO / r).is_file()])
 
 
 def _r20b(rep):
